@@ -126,11 +126,11 @@ def correspondence(ctx):
         ev += len(ch) * 26
         if rc != 0 or len(out) != len(ch):
             bad = ch[min(len(out), len(ch) - 1)]
-            ctx.violation("sanitizer build aborted while ending a frame into a destination with 0..12 spare bytes: %s" % (err or "")[-600:], dict(kind="monitor", op=bad[:400000], stderr=(err or "")[-3000:]))
+            ctx.violation("sanitizer build aborted while ending a frame into a destination with 0..12 spare bytes: %s" % (err or "")[-600:], dict(kind="monitor", op=bad[:40000000], stderr=(err or "")[-3000:]))
             continue
         for ln, r in zip(ch, out):
             if "OVER" in r:
-                ctx.violation("frame epilogue written past the destination capacity: %s" % r[:300], dict(kind="monitor", op=ln[:400000], result=r))
+                ctx.violation("frame epilogue written past the destination capacity: %s" % r[:300], dict(kind="monitor", op=ln[:40000000], result=r))
     # (b3) the sequence-level single-pass entry point: ZSTD_compressSequences into exact-size destinations (every capacity up to 40, around the
     # compressed size, around the bound)
     slines, sinfo = [], []
@@ -210,7 +210,7 @@ def correspondence(ctx):
         rc, out, err = frames.run_lines(exe, ch, timeout=1800)
         if rc != 0 or len(out) != len(ch):
             bad = ch[min(len(out), len(ch) - 1)]
-            ctx.violation("sanitizer build aborted in a decoding / inspection entry point: %s :: %s" % (bad[:100], (err or "")[-600:]), dict(kind="monitor", op=bad[:400000], stderr=(err or "")[-3000:]))
+            ctx.violation("sanitizer build aborted in a decoding / inspection entry point: %s :: %s" % (bad[:100], (err or "")[-600:]), dict(kind="monitor", op=bad[:40000000], stderr=(err or "")[-3000:]))
             out = out + ["crash"] * (len(ch) - len(out))
         return out
     # (c2) source read discipline with decompression parameters set: checksummed frames cut 1..6 bytes short (and at random points) decoded with
@@ -228,7 +228,7 @@ def correspondence(ctx):
         ev += 1
         whole = ln.split()[4] in [frames.hx(fb) for _, fb in multi[:1]]   # (only the uncut line of the first frame is compared below)
         if r.startswith("ok") and int(r.split()[1]) > int(ln.split()[3]):
-            ctx.violation("decoding with decompression parameters returned more than the capacity: %s" % r, dict(kind="monitor", op=ln[:400000], result=r))
+            ctx.violation("decoding with decompression parameters returned more than the capacity: %s" % r, dict(kind="monitor", op=ln[:40000000], result=r))
     # (c3) synthesized frames with > 64 KiB of literals and a few very long matches, decoded into every kind of capacity (exact, slightly too
     # small, far too small) by the default sequence decoder AND by the prefetching one (forced-long sanitizer build): an overflow that is
     # only discovered among the last sequences of the block must still be reported before anything is written past the destination
@@ -247,7 +247,7 @@ def correspondence(ctx):
             rc, out, err = frames.run_lines(vexe, ch, timeout=1800)
             if rc != 0 or len(out) != len(ch):
                 bad = ch[min(len(out), len(ch) - 1)]
-                ctx.violation("sanitizer build (%s) aborted while decoding a valid frame into %s bytes: %s" % (variant, bad.split()[1], (err or "")[-600:]), dict(kind="monitor", op=bad[:400000], variant=variant, stderr=(err or "")[-3000:]))
+                ctx.violation("sanitizer build (%s) aborted while decoding a valid frame into %s bytes: %s" % (variant, bad.split()[1], (err or "")[-600:]), dict(kind="monitor", op=bad[:40000000], variant=variant, stderr=(err or "")[-3000:]))
                 out = out + ["crash"] * (len(ch) - len(out))
             return out
         bres = frames.parallel(run_v, frames.split_chunks(blines, 16))
@@ -256,11 +256,11 @@ def correspondence(ctx):
             if r == "crash":
                 continue
             if "OVERRUN" in r or "MORE-THAN" in r:
-                ctx.violation("decompression (%s) wrote past the capacity %d: %s" % (variant, cp, r), dict(kind="monitor", op=ln[:400000], variant=variant, result=r))
+                ctx.violation("decompression (%s) wrote past the capacity %d: %s" % (variant, cp, r), dict(kind="monitor", op=ln[:40000000], variant=variant, result=r))
             elif cp >= len(x) and r.split("OVER")[0].strip() != w:
-                ctx.violation("decompression (%s) of a valid frame into %d >= %d bytes gives %r, expected %r" % (variant, cp, len(x), r, w), dict(kind="monitor", op=ln[:400000], variant=variant, result=r))
+                ctx.violation("decompression (%s) of a valid frame into %d >= %d bytes gives %r, expected %r" % (variant, cp, len(x), r, w), dict(kind="monitor", op=ln[:40000000], variant=variant, result=r))
             elif cp < len(x) and r.startswith("ok"):
-                ctx.violation("decompression (%s) into a too-small capacity %d (< %d) reported success" % (variant, cp, len(x)), dict(kind="monitor", op=ln[:400000], variant=variant, result=r))
+                ctx.violation("decompression (%s) into a too-small capacity %d (< %d) reported success" % (variant, cp, len(x)), dict(kind="monitor", op=ln[:40000000], variant=variant, result=r))
     # (c4) source read discipline on VALID input: raw literals referenced in place inside the last block of an exactly sized source, short sequences
     # section behind them, long literal runs (over-reading copies) - decoded with room to spare in the destination (fast copy paths)
     rlines = []
